@@ -2,6 +2,7 @@ package main
 
 import (
 	"fmt"
+	"os"
 	"go/constant"
 	"go/token"
 	"go/types"
@@ -29,6 +30,9 @@ type loopInfo struct {
 	ord     int
 	spec    *LoopSpec
 	headSt  *State
+	frameVars []string
+	keeps     bool
+	freshOnly map[string]bool // written only at objects allocated inside the loop
 	binds   map[string]Val
 	decHead Term
 }
@@ -37,6 +41,8 @@ type Frame struct {
 	vc      *VC
 	fn      *ssa.Function
 	prefix  string
+	curPos  token.Pos // position of the instruction being executed
+	site    token.Pos // inlined frames: position of the outermost call in the function under verification
 	vals    map[ssa.Value]Val
 	depth   int
 	spec    bool // spec mode: no obligations are generated
@@ -379,6 +385,8 @@ func (fr *Frame) loopBinds(li *loopInfo, pick func(phi *ssa.Phi) Val) map[string
 		}
 		if phi.Comment != "" {
 			binds[phi.Comment] = pick(phi)
+			// "rangeint.iter" (range over an integer) is written rangeint_iter in contracts
+			binds[strings.ReplaceAll(phi.Comment, ".", "_")] = pick(phi)
 		}
 		binds[phi.Name()] = pick(phi)
 	}
@@ -406,7 +414,7 @@ func (fr *Frame) enterLoop(li *loopInfo, in *State, edges []*State, preds []*ssa
 		// check the loop variable name
 		okName := false
 		for _, instr := range b.Instrs {
-			if phi, ok := instr.(*ssa.Phi); ok && (phi.Comment == spec.Var || phi.Name() == spec.Var) {
+			if phi, ok := instr.(*ssa.Phi); ok && (phi.Comment == spec.Var || phi.Name() == spec.Var || strings.ReplaceAll(phi.Comment, ".", "_") == spec.Var) {
 				okName = true
 			}
 		}
@@ -427,6 +435,9 @@ func (fr *Frame) enterLoop(li *loopInfo, in *State, edges []*State, preds []*ssa
 	hs := in.clone()
 	hs.reach = vc.define(fr.prefix+"loophead", "Bool", in.reach)
 	mods, all := fr.loopEffects(li)
+	if os.Getenv("GOVC_DEBUG") != "" {
+		fmt.Fprintf(os.Stderr, "loop %d of %s: all=%v mods=%v\n", li.ord, fr.fn.Name(), all, sortedKeys(mods))
+	}
 	if all {
 		vc.havocAll(hs, "loop")
 	} else {
@@ -441,6 +452,19 @@ func (fr *Frame) enterLoop(li *loopInfo, in *State, edges []*State, preds []*ssa
 				vc.assume("(>= " + hs.heap[name] + " " + old.heap[name] + ")")
 			}
 		}
+		// written only at objects allocated inside the loop: everything that
+		// existed when the loop was entered keeps its value
+		for _, name := range sortedKeys(li.freshOnly) {
+			if name == "CLK" || !strings.HasPrefix(vc.heapSort[name], "(Array Ref ") {
+				if name != "CLK" {
+					hs.heap[name] = vc.havocOne(old, name)
+				}
+				continue
+			}
+			nh := vc.havocOne(old, name)
+			hs.heap[name] = nh
+			vc.assumeAt(hs, fmt.Sprintf("(forall ((r Ref)) (! (=> (< (at r) %s) (= (select %s r) (select %s r))) :pattern ((select %s r))))", old.heap["CLK"], nh, old.heap[name], nh))
+		}
 		nclk := vc.freshConst("CLK", "Int")
 		vc.assume("(>= " + nclk + " " + old.heap["CLK"] + ")")
 		hs.heap["CLK"] = nclk
@@ -453,6 +477,47 @@ func (fr *Frame) enterLoop(li *loopInfo, in *State, edges []*State, preds []*ssa
 		n := vc.freshConst(fr.prefix+phi.Name()+"_h", vc.sortOf(phi.Type()))
 		fr.vals[phi] = Val{T: n, Ty: phi.Type()}
 		vc.introduce(hs, n, phi.Type())
+	}
+	// automatic frame invariant: in a function with a `modifies` clause, every
+	// array-valued heap variable the loop havocs keeps its contents on objects
+	// allocated before the function was entered, unless the clause names it
+	if fr.top && !fr.spec && vc.con != nil && vc.con.ModSet && !all {
+		named := map[string]bool{}
+		for _, m := range vc.con.Modifies {
+			vars, allM := vc.modVars(vc.con, vc.fn, m)
+			if allM {
+				named = nil
+				break
+			}
+			for _, v := range vars {
+				named[v] = true
+			}
+		}
+		if named != nil {
+			for _, name := range sortedKeys(mods) {
+				if named[name] || name == "CLK" || !strings.HasPrefix(vc.heapSort[name], "(Array Ref ") {
+					continue
+				}
+				cur, ent := hs.heap[name], vc.get(vc.entry, name)
+				if cur == ent {
+					continue
+				}
+				// established on entry to the loop ...
+				if inCur := vc.get(in, name); inCur != ent {
+					r := vc.freshConst("frame_r", "Ref")
+					vc.oblige(in, fmt.Sprintf("loop%d-frame-entry", li.ord), "unchanged "+name, smtImp("(< (at "+r+") "+vc.entry.heap["CLK"]+")", fmt.Sprintf("(= (select %s %s) (select %s %s))", inCur, r, ent, r)), token.NoPos)
+				}
+				// ... and assumed at the head (proved preserved in closeLoop)
+				vc.assumeAt(hs, fmt.Sprintf("(forall ((r Ref)) (! (=> (< (at r) %s) (= (select %s r) (select %s r))) :pattern ((select %s r))))", vc.entry.heap["CLK"], cur, ent, cur))
+				li.frameVars = append(li.frameVars, name)
+			}
+		}
+	}
+	// automatic `keeps` invariant: flagged objects keep their fields across the loop
+	if fr.top && !fr.spec && vc.con != nil && len(vc.con.Keeps) > 0 {
+		vc.keepsOblige(vc.con, vc.entry, in, fmt.Sprintf("loop%d-keeps-entry", li.ord), token.NoPos)
+		vc.keepsAssume(vc.con, vc.entry, hs)
+		li.keeps = true
 	}
 	li.headSt = hs.clone()
 	if spec != nil && !fr.spec {
@@ -479,7 +544,22 @@ func (c Clause) label() string {
 
 func (fr *Frame) closeLoop(li *loopInfo, es *State, from *ssa.BasicBlock) {
 	vc := fr.vc
-	if li == nil || li.spec == nil || fr.spec {
+	if li == nil || fr.spec {
+		return
+	}
+	// automatic frame invariant (see enterLoop)
+	for _, name := range li.frameVars {
+		cur, ent := vc.get(es, name), vc.get(vc.entry, name)
+		if cur == ent {
+			continue
+		}
+		r := vc.freshConst("frame_r", "Ref")
+		vc.oblige(es, fmt.Sprintf("loop%d-frame-preserved", li.ord), "unchanged "+name, smtImp("(< (at "+r+") "+vc.entry.heap["CLK"]+")", fmt.Sprintf("(= (select %s %s) (select %s %s))", cur, r, ent, r)), token.NoPos)
+	}
+	if li.keeps {
+		vc.keepsOblige(vc.con, vc.entry, es, fmt.Sprintf("loop%d-keeps-preserved", li.ord), token.NoPos)
+	}
+	if li.spec == nil {
 		return
 	}
 	idx := predIndex(li.head, from)
@@ -506,6 +586,7 @@ func (fr *Frame) closeLoop(li *loopInfo, es *State, from *ssa.BasicBlock) {
 func (fr *Frame) loopEffects(li *loopInfo) (map[string]bool, bool) {
 	mods := map[string]bool{}
 	all := false
+	fr.vc.freshSink = map[string]bool{}
 	for b := range li.body {
 		for _, instr := range b.Instrs {
 			if fr.vc.instrEffects(instr, mods, 0) {
@@ -513,11 +594,38 @@ func (fr *Frame) loopEffects(li *loopInfo) (map[string]bool, bool) {
 			}
 		}
 	}
+	li.freshOnly = map[string]bool{}
+	for v := range fr.vc.freshSink {
+		if !mods[v] {
+			li.freshOnly[v] = true
+		}
+	}
+	fr.vc.freshSink = nil
 	return mods, all
 }
 
 // instrEffects adds the heap variables instr may write; returns true for "everything".
 func (vc *VC) instrEffects(instr ssa.Instruction, mods map[string]bool, depth int) bool {
+	if vc.freshSink != nil {
+		// loop analysis: writes that can only land in objects allocated inside
+		// the loop are kept apart (they do not disturb what existed before it)
+		switch x := instr.(type) {
+		case *ssa.Alloc, *ssa.MakeSlice, *ssa.MakeMap:
+			sink := vc.freshSink
+			vc.freshSink = nil
+			vc.instrEffects(instr, sink, depth)
+			vc.freshSink = sink
+			return false
+		case *ssa.Store:
+			if isAllocBased(x.Addr) || vc.eng.freshBase(x.Addr, 0) {
+				sink := vc.freshSink
+				vc.freshSink = nil
+				all := vc.instrEffects(instr, sink, depth)
+				vc.freshSink = sink
+				return all
+			}
+		}
+	}
 	switch x := instr.(type) {
 	case *ssa.Store:
 		switch a := x.Addr.(type) {
@@ -593,8 +701,28 @@ func (vc *VC) callEffects(c *ssa.CallCommon, mods map[string]bool, depth int) bo
 	}
 	callee := c.StaticCallee()
 	if callee == nil {
-		if tc := vc.eng.typeContract(c); tc != nil && tc.ModSet {
+		tc := vc.eng.typeContract(c)
+		if tc != nil && tc.Pure {
+			return false
+		}
+		if tc != nil && tc.ModSet {
 			return vc.contractEffects(tc, nil, mods)
+		}
+		// interface methods whose implementations are all in the repository
+		// (declared like-repo-implementations, or an unexported interface)
+		if n, ok := types.Unalias(c.Value.Type()).(*types.Named); ok && c.IsInvoke() {
+			private := !n.Obj().Exported() && n.Obj().Pkg() != nil && strings.HasPrefix(n.Obj().Pkg().Path(), repoPrefix)
+			if (tc != nil && tc.RepoImpls) || private {
+				if impls := vc.eng.implementations(n, c.Method); len(impls) > 0 {
+					all := false
+					for _, f := range impls {
+						if vc.addInferred(f, mods) {
+							all = true
+						}
+					}
+					return all
+				}
+			}
 		}
 		return true
 	}
@@ -657,7 +785,18 @@ func (vc *VC) addInferred(callee *ssa.Function, mods map[string]bool) bool {
 	}
 	for v := range es.fresh {
 		if _, inScope := vc.heapSort[v]; inScope {
-			mods[v] = true
+			if vc.freshSink != nil {
+				vc.freshSink[v] = true
+			} else {
+				mods[v] = true
+			}
+		}
+	}
+	for _, ws := range es.pw {
+		for v := range ws {
+			if _, inScope := vc.heapSort[v]; inScope {
+				mods[v] = true
+			}
 		}
 	}
 	mods["CLK"] = true
@@ -786,6 +925,17 @@ func (fr *Frame) oblige(st *State, kind, anchor string, goal Term, pos token.Pos
 	a := anchor
 	if fr.depth > 0 {
 		a = "[in " + shortFn(fr.fn) + "] " + anchor
+		// name the call site in the function under verification by its source
+		// text, so that the obligations of one call keep their names when code
+		// elsewhere in the function changes (ordinals stay local to a line)
+		if safetyKind(kind) && fr.site.IsValid() {
+			if t := fr.vc.eng.sourceLine(fr.site); t != "" {
+				if len(t) > 48 {
+					t = t[:48]
+				}
+				a = "[at " + t + "] " + a
+			}
+		}
 	}
 	if kind != "panic" && kind != "frame" {
 		fr.top0().panicIf(st, smtNot(goal), kind+" "+anchor)
@@ -809,6 +959,12 @@ func (fr *Frame) srcText(pos token.Pos, fallback string) string {
 
 func (fr *Frame) step(st *State, instr ssa.Instruction) bool {
 	vc := fr.vc
+	if p := instr.Pos(); p.IsValid() {
+		fr.curPos = p
+	}
+	if fr.top {
+		vc.curReach = st.reach
+	}
 	switch x := instr.(type) {
 	case *ssa.DebugRef:
 	case *ssa.Alloc:
@@ -1300,7 +1456,7 @@ func (fr *Frame) unop(st *State, x *ssa.UnOp) {
 				t = "(select " + vc.get(st, p.Var) + " " + p.Base + ")"
 			}
 			fr.defineVal(x, t)
-			vc.introduce(st, fr.vals[x].T, el)
+			vc.introduceFrom(st, fr.vals[x].T, el, p.Var)
 			vc.rangeFact(p.Var, fr.vals[x].T)
 			return
 		}
@@ -1310,7 +1466,12 @@ func (fr *Frame) unop(st *State, x *ssa.UnOp) {
 			}
 		}
 		fr.defineVal(x, vc.loadAt(st, v.T, el))
-		vc.introduce(st, fr.vals[x].T, el)
+		switch el.Underlying().(type) {
+		case *types.Struct, *types.Array:
+			vc.introduce(st, fr.vals[x].T, el)
+		default:
+			vc.introduceFrom(st, fr.vals[x].T, el, vc.memVar(el))
+		}
 	case token.NOT:
 		fr.defineVal(x, smtNot(v.T))
 	case token.SUB:
@@ -1398,6 +1559,7 @@ func (fr *Frame) binop(st *State, x *ssa.BinOp) {
 			fr.defineVal(x, "("+op+" "+a.T+" "+b.T+")")
 		default:
 			vc.decl("fun:"+op, "(declare-fun "+op+" (F64 F64) Bool)")
+			vc.f64pair(a.T, b.T)
 			var t Term
 			switch x.Op {
 			case token.EQL, token.LSS, token.LEQ:
@@ -1576,7 +1738,7 @@ func (fr *Frame) convert(st *State, x *ssa.Convert) {
 			fr.defineVal(x, vc.wrap(v.T, to))
 		}
 	case isInteger(from) && isFloat(to):
-		vc.decl("fun:i2f", "(declare-fun i2f (Int) F64)")
+		vc.declI2F()
 		fr.defineVal(x, "(i2f "+v.T+")")
 	case isFloat(from) && isInteger(to):
 		vc.decl("fun:f2i", "(declare-fun f2i (F64) Int)")
@@ -1608,7 +1770,11 @@ func (fr *Frame) convert(st *State, x *ssa.Convert) {
 			arr := vc.allocate2(st, fr.prefix+x.Name()+"_arr")
 			fr.defineVal(x, fmt.Sprintf("(mk-slice %s 0 %s %s)", arr, vc.slenOf(v.T), vc.slenOf(v.T)))
 			hv := vc.memVar(sl.Elem())
-			vc.set(st, hv, vc.freshConst(hv, vc.heapSort[hv]))
+			cur := vc.get(st, hv)
+			nh := vc.freshConst(hv, vc.heapSort[hv])
+			// only the new array's elements differ from the previous contents
+			vc.assumeAt(st, fmt.Sprintf("(forall ((r Ref)) (! (=> (not (and ((_ is elem) r) (= (e.arr r) %s))) (= (select %s r) (select %s r))) :pattern ((select %s r))))", arr, nh, cur, nh))
+			vc.set(st, hv, nh)
 			vc.note("[]byte(string) conversion: contents abstracted (length kept)")
 			return
 		}
@@ -1795,7 +1961,13 @@ func (fr *Frame) next(st *State, x *ssa.Next) {
 		if _, isMap := rng.X.Type().Underlying().(*types.Map); isMap {
 			m := fr.val(rng.X).T
 			vv, hv := vc.mapVars(rng.X.Type())
-			vc.assumeAt(st, smtImp(ok, fmt.Sprintf("(and (not (= %s nil)) (select (select %s %s) %s) (= %s (select (select %s %s) %s)))", m, vc.get(st, hv), m, k, v, vc.get(st, vv), m, k)))
+			mt := rng.X.Type().Underlying().(*types.Map)
+			if vc.sortOf(tup.At(2).Type()) == vc.sortOf(mt.Elem()) && vc.sortOf(tup.At(1).Type()) == vc.sortOf(mt.Key()) {
+				vc.assumeAt(st, smtImp(ok, fmt.Sprintf("(and (not (= %s nil)) (select (select %s %s) %s) (= %s (select (select %s %s) %s)))", m, vc.get(st, hv), m, k, v, vc.get(st, vv), m, k)))
+			} else if vc.sortOf(tup.At(1).Type()) == vc.sortOf(mt.Key()) {
+				// `for k := range m`: the value slot has no type
+				vc.assumeAt(st, smtImp(ok, fmt.Sprintf("(and (not (= %s nil)) (select (select %s %s) %s))", m, vc.get(st, hv), m, k)))
+			}
 		}
 	}
 	fr.vals[x] = Val{Tuple: []Val{{T: ok, Ty: tup.At(0).Type()}, {T: k, Ty: tup.At(1).Type()}, {T: v, Ty: tup.At(2).Type()}}, Ty: x.Type()}
@@ -1841,7 +2013,7 @@ func isConstRune(v ssa.Value) bool {
 func (vc *VC) floatLit(v constant.Value) Term {
 	if iv := constant.ToInt(v); iv.Kind() == constant.Int {
 		if n, ok := constant.Int64Val(iv); ok && n > -(1<<53) && n < (1<<53) {
-			vc.decl("fun:i2f", "(declare-fun i2f (Int) F64)")
+			vc.declI2F()
 			return "(i2f " + smtInt(fmt.Sprint(n)) + ")"
 		}
 	}
